@@ -32,6 +32,7 @@ type tierCfg struct {
 	MaxSteps int
 	MaxPaths int
 	Budget   int // seconds of exploration allowed for this harness (0 = default)
+	Preemptions int
 }
 
 type harnessCfg struct {
@@ -270,6 +271,7 @@ func cmdCheck(args []string) int {
 		if *maxPaths > 0 {
 			cfg.MaxPaths = *maxPaths
 		}
+		cfg.Preemptions = tc.Preemptions
 		budget := tc.Budget
 		if budget == 0 {
 			budget = 600
